@@ -51,6 +51,26 @@ def main(argv):
             out["|".join(k)] = {"family": fname, "case": case, "detail": detail}
         json.dump(out, open(argv[3], "w"), indent=1)
         return 0
+    if argv and argv[0] == "--pin-all":
+        # --pin-all family n out.json [per_key]: every shrunken candidate per key
+        per_key = int(argv[4]) if len(argv) > 4 else 8
+        cands = pin([argv[1]], int(argv[2]), per_key=per_key, keep_all=True)
+        json.dump({"|".join(k): v for k, v in cands.items()}, open(argv[3], "w"), indent=1)
+        print({"|".join(k): len(v) for k, v in cands.items()})
+        return 0
+    if argv and argv[0] == "--filter":
+        # --filter in.json out.json: keep the candidates that still show their key (and only listed keys) on HS_REPO
+        cands = json.load(open(argv[1]))
+        out = {}
+        for k, lst in cands.items():
+            for c in lst:
+                r = c12.FAMILIES[c["family"]].run(c["case"])
+                keys = {"|".join(v.key()) for v in r.violations}
+                if k in keys and keys <= set(cands):
+                    out.setdefault(k, []).append(c)
+        json.dump(out, open(argv[2], "w"), indent=1)
+        print({k: (len(out.get(k, [])), len(v)) for k, v in cands.items()})
+        return 0
     if argv and argv[0] == "--write-known":
         return write_known(argv[2:], argv[1])
     path = argv[0]
@@ -186,7 +206,7 @@ def shrink_case(case: dict, fails, max_tests: int = 120) -> dict:
     return cur
 
 
-def pin(families: list[str], n: int, seed: int = 0, per_key: int = 4) -> dict:
+def pin(families: list[str], n: int, seed: int = 0, per_key: int = 4, keep_all: bool = False) -> dict:
     """Scan n cases per family, keep up to per_key witnesses per mechanism key, shrink, return smallest per key."""
     import json as _json
 
@@ -218,6 +238,11 @@ def pin(families: list[str], n: int, seed: int = 0, per_key: int = 4) -> dict:
 
                 small = shrink_case(case, fails)
                 size = len(_json.dumps(small))
+                if keep_all:
+                    rr = fam.run(small)
+                    v = next(v for v in rr.violations if v.key() == k)
+                    best.setdefault(k, []).append({"family": fname, "case": small, "detail": v.detail})
+                    continue
                 if k not in best or size < best[k][0]:
                     rr = fam.run(small)
                     v = next(v for v in rr.violations if v.key() == k)
